@@ -52,10 +52,11 @@ fn gen_patterns(rng: &mut Rng, snap: &Snapshot) -> Vec<String> {
         .filter(|(p, n)| n.kind == Kind::Dir && p.as_str() != "/" && snap.keys().any(|q| q != *p && tree::is_under(q, p)))
         .map(|(p, _)| p)
         .collect();
-    let n = 1 + rng.below(4);
+    // now and then a long exclude list
+    let n = if rng.chance(1, 12) { 8 + rng.below(8) } else { 1 + rng.below(4) };
     let mut v = Vec::new();
     for _ in 0..n {
-        let p = match rng.below(17) {
+        let p = match rng.below(23) {
             0 => (*rng.pick(&paths)).clone(),
             1 if !dirs_with_children.is_empty() => (*rng.pick(&dirs_with_children)).clone(),
             2 => rng.pick(&paths).rsplit('/').next().unwrap().to_string(),
@@ -91,6 +92,31 @@ fn gen_patterns(rng: &mut Rng, snap: &Snapshot) -> Vec<String> {
                     None => format!("{last}?x"),
                 }
             }
+            // alternation, at any depth and anchored
+            17 => {
+                let a = rng.pick(&paths).rsplit('/').next().unwrap().to_string();
+                let b = rng.pick(&paths).rsplit('/').next().unwrap().to_string();
+                if a.contains([',', '{', '}']) || b.contains([',', '{', '}']) { "{a,b}".into() } else if rng.chance(1, 2) { format!("{{{a},{b}}}") } else { format!("/{{{a},{b}}}") }
+            }
+            // '**' in the middle and on both sides
+            18 => format!("**/{}/**", rng.pick(&paths).rsplit('/').next().unwrap()),
+            19 if !dirs_with_children.is_empty() => {
+                let d = rng.pick(&dirs_with_children);
+                let below: Vec<&&String> = paths.iter().filter(|p| p.starts_with(&format!("{d}/"))).collect();
+                format!("{d}/**/{}", rng.pick(&below).rsplit('/').next().unwrap())
+            }
+            // a name in the other case: must not match (matching is case sensitive)
+            20 => {
+                let n = rng.pick(&paths).rsplit('/').next().unwrap();
+                if n.chars().any(|c| c.is_lowercase()) { n.to_uppercase() } else { n.to_lowercase() }
+            }
+            // a literal prefix followed by '*': must stay within one component
+            21 => {
+                let n = rng.pick(&paths).rsplit('/').next().unwrap();
+                let c = n.chars().next().unwrap();
+                if c.is_alphanumeric() { format!("{c}*") } else { "a*".into() }
+            }
+            22 => format!("/{}*", rng.pick(&paths).chars().skip(1).take(1).filter(|c| c.is_alphanumeric()).collect::<String>()),
             _ => format!("/{}", *rng.pick(NAMES15)),
         };
         if !v.contains(&p) {
@@ -194,7 +220,7 @@ pub fn run(tier: Tier, replay: Option<Value>) -> i32 {
     let run = Run::new("C15", "exploration", tier, replay);
     run.par_cases(tier.pick(3000, 300000), super::threads(), |c| one_case(&run, c));
     run.finish(
-        "generated trees (depth <= 4, names with extensions, upper/lower case, digits, non-ASCII) x sets of 1-4 exclusion patterns instantiated from the tree: anchored file and directory paths, bare names, '*.ext', '?x', 'd/*/f', '**/n', 'd/**', '[ab]*', '[!a-z]*', 'é*', '/d/*', '/*.ext', '/*/name', 'dir?child' and 'dir[!a]child' (which must not match across the separator). Observed: (a) the paths stored by backup(exclude=E) decoded independently, (b) iter_entries(full backup, exclude=E), (c) the paths created by restore(full backup, exclude=E); all three must equal, below the root, the set given by the rule 'omitted iff the path or an ancestor matches a pattern' evaluated with globs the harness builds from the raw patterns (leading '/' anchors at the root, otherwise any depth). Non-trivial = some but not all paths excluded.",
+        "generated trees (depth <= 4, names with extensions, upper/lower case, digits, non-ASCII) x sets of 1-4 (one case in twelve: 8-15) exclusion patterns instantiated from the tree: anchored file and directory paths, bare names, '*.ext', '?x', 'd/*/f', '**/n', 'd/**', '[ab]*', '[!a-z]*', 'é*', '/d/*', '/*.ext', '/*/name', 'dir?child' and 'dir[!a]child' (which must not match across the separator), '{a,b}' and '/{a,b}', '**/n/**', '/d/**/n', a name in the other case (must not match), 'c*' and '/c*'. Observed: (a) the paths stored by backup(exclude=E) decoded independently, (b) iter_entries(full backup, exclude=E), (c) the paths created by restore(full backup, exclude=E); all three must equal, below the root, the set given by the rule 'omitted iff the path or an ancestor matches a pattern' evaluated with globs the harness builds from the raw patterns (leading '/' anchors at the root, otherwise any depth). Non-trivial = some but not all paths excluded.",
         &["globset's matcher is trusted for what a single glob matches; anchoring, ancestor propagation and the three code paths are what is checked"],
         None,
         &[("observations_compared", 100), ("cases_excluding_some_but_not_all", 30), ("cases_excluding_a_directory_with_children", 10)],
